@@ -69,9 +69,6 @@ theorem certOk_sound (es : List (Node × Node)) (lv : Node → Nat) (h : certOk 
 
 /-! ## folds -/
 
-def foldMax (l : List Nat) : Nat := l.foldl max 0
-def foldMin (n : Nat) (l : List Nat) : Nat := l.foldl min n
-
 theorem foldl_max_ge (l : List Nat) (a : Nat) : a ≤ l.foldl max a := by
   induction l generalizing a with
   | nil => simp
@@ -123,10 +120,19 @@ theorem lt_foldl_min (l : List Nat) (a n : Nat) (ha : n < a) (h : ∀ x ∈ l, n
 namespace Design
 variable (D : Design)
 
-/-- latest position among the transactions that run `b` -/
-def hi (b : BodyId) : Nat := foldMax ((D.transFor b).map D.pos)
-/-- earliest position among the transactions that run `b` (`order.length` if nobody does) -/
-def lo (b : BodyId) : Nat := foldMin D.order.length ((D.transFor b).map D.pos)
+theorem foldMax_le {l : List Nat} {n : Nat} (h : ∀ x ∈ l, x ≤ n) : foldMax l ≤ n := by
+  unfold foldMax
+  have : ∀ (l : List Nat) (a : Nat), a ≤ n → (∀ x ∈ l, x ≤ n) → l.foldl max a ≤ n := by
+    intro l
+    induction l with
+    | nil => intro a ha _; simpa using ha
+    | cons y ys ih =>
+      intro a ha h
+      simp only [List.foldl_cons]
+      apply ih
+      · have := h y (List.mem_cons_self ..); omega
+      · intro x hx; exact h x (List.mem_cons_of_mem _ hx)
+  exact this l 0 (Nat.zero_le _) h
 
 theorem pos_le_hi {b t : BodyId} (ht : t ∈ D.transFor b) : D.pos t ≤ D.hi b :=
   le_foldl_max _ _ _ (List.mem_map_of_mem ht)
@@ -194,6 +200,40 @@ theorem before_of_rel (hvo : D.validOrder = true) {r : Rel} (hr : r ∈ D.rels) 
   simpa using this
 
 
+/-! ## run-derived enables -/
+
+theorem hi_le_he {sid : SiteId} {d : BodyId} (h : (sid, d) ∈ D.enReads) : D.hi d ≤ D.he sid := by
+  unfold he foldMax
+  apply le_foldl_max
+  exact List.mem_map.mpr ⟨(sid, d), List.mem_filter.mpr ⟨h, by simp⟩, rfl⟩
+
+theorem he_le_heDown {sid : SiteId} {b : BodyId} (h : D.inDown sid b = true) : D.he sid ≤ D.heDown b := by
+  unfold he
+  apply foldMax_le
+  intro x hx
+  obtain ⟨p, hp, rfl⟩ := List.mem_map.mp hx
+  obtain ⟨hpm, hps⟩ := List.mem_filter.mp hp
+  have hps' : p.1 = sid := by simpa using hps
+  unfold heDown foldMax
+  apply le_foldl_max
+  exact List.mem_map.mpr ⟨p, List.mem_filter.mpr ⟨hpm, by rw [hps']; exact h⟩, rfl⟩
+
+theorem isDown_of_inDown {sid : SiteId} {b : BodyId} (hd : D.derived sid = true) (h : D.inDown sid b = true) :
+    D.isDown b = true := by
+  unfold derived at hd
+  obtain ⟨p, hp, hps⟩ := List.any_eq_true.mp hd
+  have hps' : p.1 = sid := by simpa using hps
+  unfold isDown
+  exact List.any_eq_true.mpr ⟨p, hp, by rw [hps']; exact h⟩
+
+/-- a site on a chain to `m` has `m` downstream -/
+theorem inDown_of_onChain {t m : BodyId} {s : Site} (hs : s ∈ D.sites) (h : D.onChain t s m = true) :
+    D.inDown s.id m = true := by
+  unfold onChain at h
+  simp only [Bool.and_eq_true] at h
+  unfold inDown
+  exact List.any_eq_true.mpr ⟨s, hs, by simp only [beq_self_eq_true, Bool.true_and]; exact h.2⟩
+
 /-! ## the rank -/
 
 def dataRank (c : DataCert) (x : Node) : Nat × Nat × Nat :=
@@ -201,14 +241,17 @@ def dataRank (c : DataCert) (x : Node) : Nat × Nat × Nat :=
 
 /-- tier 0: closed data; tier 1: control, ordered by position in `porder`; tier 2: data that depends on who runs.
 Within tier 1: `ready b` at the earliest caller of `b`, `runnable t`, `run t` at the position of `t`,
-`run m` at the latest caller of `m`; signals that read nothing sit at the bottom. -/
+`run m` at the latest caller of `m` — or, when `run m` reads a run-derived enable, at the latest caller of `m`
+and of the sources of those enables; a derived enable at the latest caller of its sources; signals that read
+nothing sit at the bottom. -/
 def rank (c : DataCert) : Node → Nat × Nat × Nat
   | .ready b => if D.localReady b then (1, 0, 0) else (1, D.lo b, 1)
   | .runnable t => (1, D.pos t, 2)
   | .run b =>
     if D.isTrans b then (1, D.pos b, 3)
-    else if (D.transFor b).isEmpty then (1, 0, 0) else (1, D.hi b, 4)
-  | .en _ => (1, 0, 0)
+    else if (D.transFor b).isEmpty then (1, 0, 0)
+    else if D.isDown b then (1, max (D.hi b) (D.heDown b), 6) else (1, D.hi b, 4)
+  | .en s => if D.derived s then (1, D.he s, 5) else (1, 0, 0)
   | .arg s => dataRank c (.arg s)
   | .dataIn m => dataRank c (.dataIn m)
   | .dataOut m => dataRank c (.dataOut m)
@@ -220,41 +263,42 @@ theorem rank_run_tier (c : DataCert) (b : BodyId) : (D.rank c (.run b)).1 = 1 :=
   simp only [rank]
   split
   · rfl
-  · split <;> rfl
+  · split
+    · rfl
+    · split <;> rfl
 
-/-- every `run` node is below `(1, n, k)` when its callers are all before position `n` -/
+theorem rank_en_tier (c : DataCert) (s : SiteId) : (D.rank c (.en s)).1 = 1 := by
+  simp only [rank]
+  split <;> rfl
+
+/-- every `run` node is below `(1, n, k)` when its callers — and, if it runs through derived enables, the callers
+of their sources — are all before position `n` -/
 theorem rank_run_lt (c : DataCert) (b : BodyId) (n k : Nat)
-    (h : ∀ t ∈ D.transFor b, D.pos t < n) : lt3 (D.rank c (.run b)) (1, n, k + 1) := by
+    (h : ∀ t ∈ D.transFor b, D.pos t < n) (hd : D.isDown b = true → D.heDown b < n) :
+    lt3 (D.rank c (.run b)) (1, n, k + 1) := by
   simp only [rank]
   split
   · rename_i hb
     have hb' : b ∈ D.trans := by simpa [isTrans] using hb
     have := h b (by rw [D.transFor_self hb']; exact List.mem_singleton.mpr rfl)
-    exact Or.inr ⟨rfl, Or.inl this⟩
+    exact lt3_major 1 _ _ _ _ this
   · split
-    · by_cases hn : 0 < n
-      · exact Or.inr ⟨rfl, Or.inl hn⟩
-      · have : n = 0 := by omega
-        subst this
-        exact Or.inr ⟨rfl, Or.inr ⟨rfl, Nat.succ_pos k⟩⟩
+    · exact lt3_le 1 0 0 n (k + 1) (Nat.zero_le _) (Nat.succ_pos k)
     · rename_i hne
       have hne' : D.transFor b ≠ [] := by simpa using hne
-      exact Or.inr ⟨rfl, Or.inl (D.hi_lt hne' h)⟩
+      have hhi := D.hi_lt hne' h
+      split
+      · rename_i hdn
+        have := hd hdn
+        exact lt3_major 1 _ _ _ _ (by omega)
+      · exact lt3_major 1 _ _ _ _ hhi
 
 theorem rank_ready_le (c : DataCert) (b : BodyId) (n k : Nat) (h : D.lo b ≤ n) (hk : 2 ≤ k) :
     lt3 (D.rank c (.ready b)) (1, n, k) := by
   simp only [rank]
   split
-  · by_cases hn : 0 < n
-    · exact Or.inr ⟨rfl, Or.inl hn⟩
-    · have : n = 0 := by omega
-      subst this
-      exact Or.inr ⟨rfl, Or.inr ⟨rfl, by show 0 < k; omega⟩⟩
-  · by_cases hn : D.lo b < n
-    · exact Or.inr ⟨rfl, Or.inl hn⟩
-    · have : D.lo b = n := by omega
-      exact Or.inr ⟨rfl, Or.inr ⟨this, by show 1 < k; omega⟩⟩
-
+  · exact lt3_le 1 0 0 n k (Nat.zero_le _) (by omega)
+  · exact lt3_le 1 _ 1 n k h (by omega)
 
 /-! ## every edge decreases the rank -/
 
@@ -264,7 +308,7 @@ structure Hyp (c : DataCert) : Prop where
   vo : D.validOrder = true
   rule : D.ruleReady = true
   rdwf : D.rdWf = true
-  noen : D.enReads = []
+  enok : D.enOk = true
   data : D.dataOk c = true
 
 variable {D}
@@ -287,6 +331,27 @@ theorem Hyp.mem_transFor {c : DataCert} (h : D.Hyp c) {t b : BodyId} (ht : t ∈
   rcases List.mem_cons.mp hb with rfl | hb
   · rw [D.transFor_self ht]; exact List.mem_singleton.mpr rfl
   · exact D.mem_transFor_of_reach ht hb (h.reach_not_trans ht hb)
+
+/-- the four parts of `enOk` -/
+theorem Hyp.en_parts {c : DataCert} (h : D.Hyp c) :
+    (∀ p ∈ D.enReads, D.isDown p.2 = false) ∧
+    (∀ p ∈ D.readyReads, D.isDown p.2 = true → D.heDown p.2 < D.lo p.1) ∧
+    (∀ r ∈ D.rels, r.readyDep = true → D.isDown r.src = true → D.heDown r.src < D.lo r.dst) ∧
+    (∀ t ∈ D.trans, ∀ s ∈ D.valEn t, D.derived s.id = true → D.he s.id < D.pos t) := by
+  have := h.enok
+  unfold Design.enOk at this
+  simp only [Bool.and_eq_true, List.all_eq_true] at this
+  obtain ⟨⟨⟨h1, h2⟩, h3⟩, h4⟩ := this
+  refine ⟨fun p hp => by simpa using h1 p hp, ?_, ?_, ?_⟩
+  · intro p hp hd
+    have := h2 p hp
+    simpa [hd] using this
+  · intro r hr hrd hd
+    have := h3 r hr
+    simpa [hrd, hd] using this
+  · intro t ht s hs hd
+    have := h4 t ht s hs
+    simpa [hd] using this
 
 theorem rank_run_trans (c : DataCert) {t : BodyId} (ht : t ∈ D.trans) : D.rank c (.run t) = (1, D.pos t, 3) := by
   have : D.isTrans t = true := by simpa [isTrans] using ht
@@ -313,6 +378,7 @@ theorem dec_runT {c : DataCert} (_h : D.Hyp c) {x y : Node} (he : (x, y) ∈ D.e
 
 theorem dec_runnable {c : DataCert} (h : D.Hyp c) {x y : Node} (he : (x, y) ∈ D.edgesRunnable) :
     lt3 (D.rank c y) (D.rank c x) := by
+  obtain ⟨_, _, hen3, hen4⟩ := h.en_parts
   unfold edgesRunnable at he
   obtain ⟨t, ht, he⟩ := List.mem_flatMap.mp he
   rcases List.mem_append.mp he with he | he
@@ -336,13 +402,19 @@ theorem dec_runnable {c : DataCert} (h : D.Hyp c) {x y : Node} (he : (x, y) ∈ 
         have hw' := List.all_eq_true.mp hw r hrm
         simp only [hrc.1, Bool.not_true, Bool.false_or, Bool.and_eq_true, Bool.not_eq_true', beq_iff_eq] at hw'
         have hdst : r.dst = b := hrc.2
-        exact D.rank_run_lt c r.src (D.pos t) 1 (fun ta hta =>
-          D.before_of_rel h.vo hrm hw'.1 hw'.2 hta (by rw [hdst]; exact htb))
-    · -- enables of validated chains: plain enables read nothing
-      obtain ⟨s, _, hxy⟩ := List.mem_map.mp he
+        have hlo : D.lo r.dst ≤ D.pos t := by rw [hdst]; exact D.lo_le_pos htb
+        exact D.rank_run_lt c r.src (D.pos t) 1
+          (fun ta hta => D.before_of_rel h.vo hrm hw'.1 hw'.2 hta (by rw [hdst]; exact htb))
+          (fun hdn => Nat.lt_of_lt_of_le (hen3 r hrm hrc.1 hdn) hlo)
+    · -- enables of validated chains: a plain enable reads nothing, a derived one has all its sources before `t`
+      obtain ⟨s, hs, hxy⟩ := List.mem_map.mp he
       simp only [Prod.mk.injEq] at hxy
       obtain ⟨rfl, rfl⟩ := hxy
-      exact lt3_le 1 0 0 (D.pos t) 2 (Nat.zero_le _) (by decide)
+      simp only [rank]
+      split
+      · rename_i hd
+        exact lt3_major 1 _ _ _ _ (hen4 t ht s hs hd)
+      · exact lt3_le 1 0 0 (D.pos t) 2 (Nat.zero_le _) (by decide)
   · -- validated arguments are closed data
     have hd := h.data
     unfold dataOk at hd
@@ -367,97 +439,157 @@ theorem dec_runM {c : DataCert} (h : D.Hyp c) {x y : Node} (he : (x, y) ∈ D.ed
     cases hl : D.transFor m.id with
     | nil => rw [hl] at ht; cases ht
     | cons _ _ => rfl
-  have hrm : D.rank c (.run m.id) = (1, D.hi m.id, 4) := by simp [rank, hnt, hne]
+  have hrm : D.rank c (.run m.id) =
+      if D.isDown m.id then (1, max (D.hi m.id) (D.heDown m.id), 6) else (1, D.hi m.id, 4) := by
+    simp [rank, hnt, hne]
   rcases List.mem_cons.mp he with he | he
   · simp only [Prod.mk.injEq] at he
     obtain ⟨rfl, rfl⟩ := he
     rw [hrm, rank_run_trans c (D.transFor_sub_trans ht)]
-    exact lt3_le 1 _ 3 _ 4 (D.pos_le_hi ht) (by decide)
-  · obtain ⟨s, _, hxy⟩ := List.mem_map.mp he
+    have := D.pos_le_hi ht
+    split
+    · exact lt3_le 1 _ 3 _ 6 (by omega) (by decide)
+    · exact lt3_le 1 _ 3 _ 4 this (by decide)
+  · obtain ⟨s, hs, hxy⟩ := List.mem_map.mp he
     simp only [Prod.mk.injEq] at hxy
     obtain ⟨rfl, rfl⟩ := hxy
+    obtain ⟨hsm, hch⟩ := List.mem_filter.mp hs
     rw [hrm]
-    exact lt3_le 1 0 0 _ 4 (Nat.zero_le _) (by decide)
+    simp only [rank]
+    split
+    · rename_i hder
+      have hin := D.inDown_of_onChain hsm hch
+      have hdn := D.isDown_of_inDown hder hin
+      have hle := D.he_le_heDown hin
+      rw [hdn]
+      simp only [if_true]
+      exact lt3_le 1 _ 5 _ 6 (by omega) (by decide)
+    · split
+      · exact lt3_le 1 0 0 _ 6 (Nat.zero_le _) (by decide)
+      · exact lt3_le 1 0 0 _ 4 (Nat.zero_le _) (by decide)
 
 theorem dec_dataIn {c : DataCert} (h : D.Hyp c) {x y : Node} (he : (x, y) ∈ D.edgesDataIn) :
     lt3 (D.rank c y) (D.rank c x) := by
   have hd := h.data
   unfold dataOk at hd
   simp only [Bool.and_eq_true, List.all_eq_true] at hd
-  have hdr := hd.1.1.2 (x, y) he
-  unfold edgesDataIn at he
-  obtain ⟨m, hm, he⟩ := List.mem_flatMap.mp he
-  have hopen : c.cl (.dataIn m.id) = false := by simpa using hd.1.2 m hm
-  simp only at he
-  split at he
-  · cases he
-  · obtain ⟨s, _, he⟩ := List.mem_flatMap.mp he
-    have hrx : D.rank c (.dataIn m.id) = (2, c.dr (.dataIn m.id), 0) := by simp [rank, dataRank, hopen]
-    rcases List.mem_cons.mp he with he | he
-    · simp only [Prod.mk.injEq] at he
-      obtain ⟨rfl, rfl⟩ := he
-      simp only [Node.isData, Bool.not_true, Bool.false_or, decide_eq_true_eq] at hdr
-      rw [hrx]
-      simp only [rank, dataRank]
-      split
-      · exact lt3_tier 0 _ _ 2 _ _ (by decide)
-      · exact lt3_major 2 _ _ _ _ hdr
-    · split at he
-      · simp only [List.mem_cons, Prod.mk.injEq, List.not_mem_nil, or_false] at he
-        rcases he with ⟨rfl, rfl⟩ | ⟨rfl, rfl⟩
-        · rw [hrx]; exact Or.inl (by rw [D.rank_run_tier c]; exact (by decide : 1 < 2))
-        · rw [hrx]; exact lt3_tier 1 0 0 2 _ _ (by decide)
-      · cases he
+  have hdr := hd.1.2 (x, y) he
+  have hx : x.isData = true := by
+    unfold edgesDataIn at he
+    obtain ⟨m, _, he⟩ := List.mem_flatMap.mp he
+    simp only at he
+    split at he
+    · cases he
+    · obtain ⟨s, _, he⟩ := List.mem_flatMap.mp he
+      rcases List.mem_cons.mp he with he | he
+      · simp only [Prod.mk.injEq] at he; rw [he.1]; rfl
+      · split at he
+        · simp only [List.mem_cons, Prod.mk.injEq, List.not_mem_nil, or_false] at he
+          rcases he with he | he <;> (rw [he.1]; rfl)
+        · cases he
+  have hytier : y.isData = false → (D.rank c y).1 = 1 := by
+    unfold edgesDataIn at he
+    obtain ⟨m, _, he⟩ := List.mem_flatMap.mp he
+    simp only at he
+    intro hy
+    split at he
+    · cases he
+    · obtain ⟨s, _, he⟩ := List.mem_flatMap.mp he
+      rcases List.mem_cons.mp he with he | he
+      · simp only [Prod.mk.injEq] at he; rw [he.2] at hy; simp [Node.isData] at hy
+      · split at he
+        · simp only [List.mem_cons, Prod.mk.injEq, List.not_mem_nil, or_false] at he
+          rcases he with he | he
+          · rw [he.2]; exact D.rank_run_tier c _
+          · rw [he.2]; exact D.rank_en_tier c _
+        · cases he
+  simp only at hdr
+  rw [D.rank_of_isData c hx]
+  cases hy : y.isData
+  · -- a control signal read by the argument multiplexer: `x` is not closed
+    simp only [hy, Bool.false_eq_true, if_false, Bool.not_eq_true'] at hdr
+    have h1 := hytier hy
+    unfold dataRank
+    simp only [hdr, Bool.false_eq_true, if_false]
+    exact Or.inl (by rw [h1]; exact (by decide : 1 < 2))
+  · simp only [hy, if_true, Bool.and_eq_true, decide_eq_true_eq, Bool.or_eq_true, Bool.not_eq_true'] at hdr
+    rw [D.rank_of_isData c hy]
+    unfold dataRank
+    obtain ⟨hlt, hcl⟩ := hdr
+    cases hcx : c.cl x <;> cases hcy : c.cl y <;> simp only [if_true, Bool.false_eq_true, if_false]
+    · exact lt3_major 2 _ _ _ _ hlt
+    · exact lt3_tier 0 _ _ 2 _ _ (by decide)
+    · rcases hcl with hcl | hcl <;> simp_all
+    · exact lt3_major 0 _ _ _ _ hlt
 
 theorem dec_user {c : DataCert} (h : D.Hyp c) {x y : Node} (he : (x, y) ∈ D.edgesUser) :
     lt3 (D.rank c y) (D.rank c x) := by
+  obtain ⟨hen1, hen2, _, _⟩ := h.en_parts
   unfold edgesUser at he
-  rw [h.noen] at he
-  simp only [List.map_nil, List.append_nil] at he
   have hrule := h.rule
   unfold ruleReady at hrule
   simp only [Bool.and_eq_true, List.all_eq_true] at hrule
   rcases List.mem_append.mp he with he | he
   · rcases List.mem_append.mp he with he | he
-    · -- ready b reads run b', with b' scheduled before b
+    · rcases List.mem_append.mp he with he | he
+      · -- ready b reads run b', with b' scheduled before b
+        obtain ⟨p, hp, hxy⟩ := List.mem_map.mp he
+        simp only [Prod.mk.injEq] at hxy
+        obtain ⟨rfl, rfl⟩ := hxy
+        have hsb := hrule.1 p hp
+        unfold schedBefore at hsb
+        obtain ⟨r, hr, hrc⟩ := List.any_eq_true.mp hsb
+        simp only [Bool.and_eq_true, beq_iff_eq, Bool.not_eq_true'] at hrc
+        obtain ⟨⟨⟨hsrc, hdst⟩, hconf⟩, hprio⟩ := hrc
+        have hnl : D.localReady p.1 = false := by
+          unfold localReady
+          have : (D.readyReads.any fun q => q.1 == p.1) = true :=
+            List.any_eq_true.mpr ⟨p, hp, by simp⟩
+          simp [this]
+        have hry : D.rank c (.ready p.1) = (1, D.lo p.1, 1) := by simp [rank, hnl]
+        rw [hry]
+        apply D.rank_run_lt c p.2 (D.lo p.1) 0
+        · intro ta hta
+          have hta' : ta ∈ D.transFor r.src := by rw [hsrc]; exact hta
+          apply D.lt_lo (D.pos_lt_length h.vo (D.transFor_sub_trans hta))
+          intro tb htb
+          exact D.before_of_rel h.vo hr hconf hprio hta' (by rw [hdst]; exact htb)
+        · exact hen2 p hp
+      · -- ready b reads the purely local ready b'
+        obtain ⟨p, hp, hxy⟩ := List.mem_map.mp he
+        simp only [Prod.mk.injEq] at hxy
+        obtain ⟨rfl, rfl⟩ := hxy
+        have hloc := hrule.2 p hp
+        have hnl : D.localReady p.1 = false := by
+          unfold localReady
+          have : (D.readyLocal.any fun q => q.1 == p.1) = true :=
+            List.any_eq_true.mpr ⟨p, hp, by simp⟩
+          simp [this]
+        simp only [rank, hloc, hnl, if_true, Bool.false_eq_true, if_false]
+        exact lt3_le 1 0 0 _ 1 (Nat.zero_le _) (by decide)
+    · -- a derived enable reads run d: d does not run through a derived enable itself
       obtain ⟨p, hp, hxy⟩ := List.mem_map.mp he
       simp only [Prod.mk.injEq] at hxy
       obtain ⟨rfl, rfl⟩ := hxy
-      have hsb := hrule.1 p hp
-      unfold schedBefore at hsb
-      obtain ⟨r, hr, hrc⟩ := List.any_eq_true.mp hsb
-      simp only [Bool.and_eq_true, beq_iff_eq, Bool.not_eq_true'] at hrc
-      obtain ⟨⟨⟨hsrc, hdst⟩, hconf⟩, hprio⟩ := hrc
-      have hnl : D.localReady p.1 = false := by
-        unfold localReady
-        have : (D.readyReads.any fun q => q.1 == p.1) = true :=
-          List.any_eq_true.mpr ⟨p, hp, by simp⟩
-        simp [this]
-      have hry : D.rank c (.ready p.1) = (1, D.lo p.1, 1) := by simp [rank, hnl]
-      rw [hry]
-      apply D.rank_run_lt c p.2 (D.lo p.1) 0
-      intro ta hta
-      have hta' : ta ∈ D.transFor r.src := by rw [hsrc]; exact hta
-      apply D.lt_lo (D.pos_lt_length h.vo (D.transFor_sub_trans hta))
-      intro tb htb
-      exact D.before_of_rel h.vo hr hconf hprio hta' (by rw [hdst]; exact htb)
-    · -- ready b reads the purely local ready b'
-      obtain ⟨p, hp, hxy⟩ := List.mem_map.mp he
-      simp only [Prod.mk.injEq] at hxy
-      obtain ⟨rfl, rfl⟩ := hxy
-      have hloc := hrule.2 p hp
-      have hnl : D.localReady p.1 = false := by
-        unfold localReady
-        have : (D.readyLocal.any fun q => q.1 == p.1) = true :=
-          List.any_eq_true.mpr ⟨p, hp, by simp⟩
-        simp [this]
-      simp only [rank, hloc, hnl, if_true, Bool.false_eq_true, if_false]
-      exact lt3_le 1 0 0 _ 1 (Nat.zero_le _) (by decide)
+      have hder : D.derived p.1 = true := by
+        unfold derived
+        exact List.any_eq_true.mpr ⟨p, hp, by simp⟩
+      have hnd := hen1 p hp
+      have hle : D.hi p.2 ≤ D.he p.1 := D.hi_le_he (by cases p; exact hp)
+      simp only [rank, hder, hnd, if_true, Bool.false_eq_true, if_false]
+      split
+      · rename_i hb
+        have hb' : p.2 ∈ D.trans := by simpa [isTrans] using hb
+        have : D.pos p.2 ≤ D.hi p.2 := D.pos_le_hi (by rw [D.transFor_self hb']; exact List.mem_singleton.mpr rfl)
+        exact lt3_le 1 _ 3 _ 5 (by omega) (by decide)
+      · split
+        · exact lt3_le 1 0 0 _ 5 (Nat.zero_le _) (by decide)
+        · exact lt3_le 1 _ 4 _ 5 hle (by decide)
   · -- user data flow
     have hd := h.data
     unfold dataOk at hd
     simp only [Bool.and_eq_true, List.all_eq_true] at hd
-    have hxy := hd.1.1.1 (x, y) he
+    have hxy := hd.1.1 (x, y) he
     simp only [decide_eq_true_eq, Bool.or_eq_true, Bool.not_eq_true'] at hxy
     obtain ⟨⟨⟨⟨hdx, hdy⟩, _⟩, hdr⟩, hcl⟩ := hxy
     rw [D.rank_of_isData c hdx, D.rank_of_isData c hdy]
@@ -478,6 +610,11 @@ theorem dec_edges {c : DataCert} (h : D.Hyp c) {x y : Node} (he : (x, y) ∈ D.e
   · exact dec_runM h he
   · exact dec_dataIn h he
   · exact dec_user h he
+
+/-- without run-derived enables the side condition is void -/
+theorem enOk_of_noen (h : D.enReads = []) : D.enOk = true := by
+  unfold enOk derived isDown
+  simp [h]
 
 end Design
 end TxV.DepGraph
